@@ -604,7 +604,7 @@ func init() {
 		rulePosCodec(r)
 		ruleRescanAppliesAll(r)
 		ruleGoHandshake(r)
-		r.support([]string{"reloc-binding", "freelist-consume", "fc-removed-writes", "atomic-rmw", "scan-complete-before-truncate", "commit-order", "flush-callers", "header-preserved", "scan-framing", "reloc-keys", "header-persist", "cancel-not-completion", "pool-readers", "completion", "reap-true-means-empty", "mark-file-matches", "bucket-scan-covers", "errors-not-dropped", "handover-owners", "bucket-writers"})
+		r.support([]string{"reloc-binding", "freelist-consume", "fc-removed-writes", "atomic-rmw", "scan-complete-before-truncate", "commit-order", "flush-callers", "header-preserved", "scan-framing", "reloc-keys", "header-persist", "cancel-not-completion", "pool-readers", "completion", "reap-true-means-empty", "mark-file-matches", "bucket-scan-covers", "errors-not-dropped", "handover-owners", "bucket-writers", "flush-waits", "flush-writes", "gc-single-handover"})
 	},
 		"Decides structural necessary conditions of 'GC never changes contents', not the behaviour: index GC sets the deleted bit only on the busy()==false edge (busy reads the bucket under bucketLk and reports in-use iff file number and position both match) or when merging already-deleted records; primary records are marked only via the freelist, when not deleted and the size matches; slices handed to the primary's retaining Put during relocation do not alias a reused buffer; no *os.File result is used after its open failed; the primary is flushed and the freelist pool handed over before a cycle applies the freelist; reap/remove/truncate only touch file numbers dominated by a != current test against a snapshot read under flushLock; relocation frees exactly the moved record's (offset,size) after the re-point; only the header's first file is unlinked, after the header write; all scanners honour the deleted bit. Not covered: truncation offsets (freeAt/busyAt arithmetic), merge sizes, resume cursor, schedules.")
 }
